@@ -57,10 +57,10 @@ static void one(Out& out, const std::vector<long long>& keys, bool stable, int m
     vsched::Config cfg; cfg.seed = seed; cfg.strategy = strat; cfg.pct_depth = pct_depth; cfg.pct_steps = 400;
     auto sa = static_cast<tlx::MultiwayMergeSplittingAlgorithm>(mwmsa);
     vsched::Result res = vsched::run([&] {
-        if (iter == 1) { if (stable) tlx::stable_parallel_mergesort(v.rbegin(), v.rend(), PLess(), threads, sa); else tlx::parallel_mergesort(v.rbegin(), v.rend(), PLess(), threads, sa); }
-        else if (iter == 2) { if (stable) tlx::stable_parallel_mergesort(dq.begin(), dq.end(), PLess(), threads, sa); else tlx::parallel_mergesort(dq.begin(), dq.end(), PLess(), threads, sa); }
-        else if (stable) tlx::stable_parallel_mergesort(v.begin(), v.end(), PLess(), threads, sa);
-        else tlx::parallel_mergesort(v.begin(), v.end(), PLess(), threads, sa);
+        if (iter == 1) { if (stable) tlx::stable_parallel_mergesort(v.rbegin(), v.rend(), VF_Stateful<PLess>(1), threads, sa); else tlx::parallel_mergesort(v.rbegin(), v.rend(), VF_Stateful<PLess>(1), threads, sa); }
+        else if (iter == 2) { if (stable) tlx::stable_parallel_mergesort(dq.begin(), dq.end(), VF_Stateful<PLess>(1), threads, sa); else tlx::parallel_mergesort(dq.begin(), dq.end(), VF_Stateful<PLess>(1), threads, sa); }
+        else if (stable) tlx::stable_parallel_mergesort(v.begin(), v.end(), VF_Stateful<PLess>(1), threads, sa);
+        else tlx::parallel_mergesort(v.begin(), v.end(), VF_Stateful<PLess>(1), threads, sa);
     }, cfg);
     long live_after = g_live;
     g_vbeg = g_vend = nullptr;
